@@ -139,6 +139,7 @@ type mEntry struct {
 	bestT     int             // -1 = no time
 	may       map[int]*recVer // shown by failed/cancelled updates, at least as new
 	expiresAt time.Time
+	gen       int // incarnation: a provider that expired and came back starts afresh
 }
 
 type pcModel struct {
@@ -154,6 +155,7 @@ type pcModel struct {
 	// providers that had no positive entry then; they become acceptable
 	// alternatives once a completed update creates the entry.
 	pending map[string]map[int]*recVer
+	gens    int
 }
 
 func newPcModel(ttl time.Duration) *pcModel {
@@ -190,7 +192,8 @@ func (m *pcModel) applyRefresh(calls []*srcCall, now time.Time) {
 		for _, v := range c.recs {
 			e := m.entries[v.prov]
 			if e == nil {
-				e = &mEntry{must: map[int]*recVer{v.ver: v}, bestT: v.t, may: map[int]*recVer{}}
+				m.gens++
+				e = &mEntry{must: map[int]*recVer{v.ver: v}, bestT: v.t, may: map[int]*recVer{}, gen: m.gens}
 				m.entries[v.prov] = e
 			} else {
 				m.show(e, v)
@@ -238,7 +241,8 @@ func (m *pcModel) applyRefresh(calls []*srcCall, now time.Time) {
 
 // applyMiss: a miss-fetch for prov about to publish.
 func (m *pcModel) applyMiss(prov string, calls []*srcCall, now time.Time) {
-	e := &mEntry{neg: true, may: map[int]*recVer{}, must: map[int]*recVer{}, bestT: -2}
+	m.gens++
+	e := &mEntry{neg: true, may: map[int]*recVer{}, must: map[int]*recVer{}, bestT: -2, gen: m.gens}
 	for _, c := range calls {
 		if c.failed || c.cancelled || c.notFound {
 			continue
@@ -358,7 +362,7 @@ type pcDriver struct {
 	refreshIn     time.Duration
 	writer        *pcOp // op whose update is in flight (nil = none or background)
 	writerBG      bool
-	readerLast    map[string]map[string]int // per task, per provider: last adv time seen
+	readerLast    map[string]map[string][2]int // per task, per provider: (entry incarnation, last adv time seen)
 	allVers       map[int]*recVer
 	mode          string // oracle prefix: "c06" or "c07"
 	failNum       int    // source failure probability failNum/failDen
@@ -478,7 +482,7 @@ func verOf(pi *model.ProviderInfo) int {
 func (d *pcDriver) snapshotModel() map[string]*mEntry {
 	out := map[string]*mEntry{}
 	for n, e := range d.m.entries {
-		c := &mEntry{neg: e.neg, bestT: e.bestT, expiresAt: e.expiresAt, must: map[int]*recVer{}, may: map[int]*recVer{}}
+		c := &mEntry{neg: e.neg, bestT: e.bestT, expiresAt: e.expiresAt, must: map[int]*recVer{}, may: map[int]*recVer{}, gen: e.gen}
 		for k, v := range e.must {
 			c.must[k] = v
 		}
@@ -490,21 +494,23 @@ func (d *pcDriver) snapshotModel() map[string]*mEntry {
 	return out
 }
 
-func (d *pcDriver) monotone(task, prov string, v *recVer, oracle string) {
+func (d *pcDriver) monotone(task, prov string, v *recVer, oracle string, gen int) {
 	if !d.monotoneTimes || v == nil {
 		return
 	}
 	if d.readerLast == nil {
-		d.readerLast = map[string]map[string]int{}
+		d.readerLast = map[string]map[string][2]int{}
 	}
 	if d.readerLast[task] == nil {
-		d.readerLast[task] = map[string]int{}
+		d.readerLast[task] = map[string][2]int{}
 	}
 	last, ok := d.readerLast[task][prov]
-	if ok && v.t < last {
-		d.r.Violate(oracle+".backwards", "reader %s saw %s go back in time: record at %d after one at %d", task, prov, v.t, last)
+	// only within one incarnation of the cache entry: a provider that
+	// expired and was cached again may legitimately come back older
+	if ok && last[0] == gen && v.t < last[1] {
+		d.r.Violate(oracle+".backwards", "reader %s saw %s go back in time: record at %d after one at %d", task, prov, v.t, last[1])
 	}
-	d.readerLast[task][prov] = v.t
+	d.readerLast[task][prov] = [2]int{gen, v.t}
 }
 
 func (d *pcDriver) verByID(ver int) *recVer {
@@ -628,7 +634,7 @@ func (d *pcDriver) verify(op *pcOp) {
 			case !e.neg && !e.accepts(ver):
 				r.Violate(o+".stale", "List shows %s.v%d, want the freshest record shown to the cache: %s", n, ver, e.describe())
 			case !e.neg:
-				d.monotone(op.task, n, d.allVers[ver], o)
+				d.monotone(op.task, n, d.allVers[ver], o, e.gen)
 			}
 		}
 		for n, ver := range got {
@@ -666,7 +672,7 @@ func (d *pcDriver) verify(op *pcOp) {
 				r.Violate(o+".stale", "Get(%s) returned v%d, want the freshest record shown to the cache: %s", op.prov, op.got.Lag, e.describe())
 				return
 			}
-			d.monotone(op.task, op.prov, d.allVers[op.got.Lag], o)
+			d.monotone(op.task, op.prov, d.allVers[op.got.Lag], o, e.gen)
 			return
 		}
 		if e == nil && !op.published {
